@@ -33,9 +33,14 @@ pub trait HeaderFieldsProvider {
         let mut timestamps: Vec<u64> = Vec::with_capacity(median_block_count);
         let mut block_hash = block_hash.clone();
         for _ in 0..median_block_count {
-            let header_fields = self
-                .get_header_fields(&block_hash)
-                .expect("parent header exist");
+            let header_fields = match self.get_header_fields(&block_hash) {
+                Some(header_fields) => header_fields,
+                // An ancestor has been deleted as invalid while its descendants are still
+                // stored and waiting for their own verdict: use what is left of the window,
+                // the chain service refuses those descendants anyway.
+                None if !timestamps.is_empty() => break,
+                None => panic!("parent header exist"),
+            };
             timestamps.push(header_fields.timestamp);
             block_hash = header_fields.parent_hash;
 
